@@ -663,7 +663,38 @@ def make_os_seams(disk):
         r = fds().get(fd) if isinstance(fd, int) else None
         return None if r is not None else real["posix_fadvise"](fd, *a)
 
+    for _n in ("writev", "readv"):
+        if hasattr(os, _n):
+            real[_n] = getattr(os, _n)
+
+    def os_writev(fd, buffers):
+        r = fds().get(fd) if isinstance(fd, int) else None
+        if r is None:
+            return real["writev"](fd, buffers)
+        total = 0
+        for b in buffers:
+            b = bytes(b)
+            k_ = r.write(b)
+            total += k_
+            if k_ < len(b):
+                break
+        return total
+
+    def os_readv(fd, buffers):
+        r = fds().get(fd) if isinstance(fd, int) else None
+        if r is None:
+            return real["readv"](fd, buffers)
+        total = 0
+        for b in buffers:
+            k_ = r.readinto(b)
+            total += k_
+            if k_ < len(b):
+                break
+        return total
+
     extra = {}
+    if "writev" in real:
+        extra.update({"writev": os_writev, "readv": os_readv})
     if "pwrite" in real:
         extra.update({"pwrite": os_pwrite, "pread": os_pread})
     if "posix_fallocate" in real:
@@ -818,7 +849,7 @@ def generate(rng, tier, index):
             ops.append(["set_variable_values", o, [enc(gen_value(rng, numstr)) for _ in range(6)]])
         elif k in ("update_other", "update_yourself"):
             d = {nm: enc(gen_value(rng, numstr)) for nm in rng.sample(names, rng.between(0, min(5, len(names))))}
-            ops.append([k, o, d])
+            ops.append([k, o, d, rng.weighted([("instance", 5), ("class", 2), ("property", 2), ("proxy", 2)])])
         elif k == "save" and "crash" in kinds and rng.chance(0.12):
             # the process dies before the n-th raw write of this save; everything in memory is lost
             ops.append(["crash_save", o, path, rng.choice([0, 0, 1, 1, 2, 3, 5, 8])])
@@ -860,6 +891,35 @@ class _Violation(Exception):
 
 class _Other(object):
     pass
+
+
+def make_peer(kind, attrs):
+    """the object a client hands to update_other / update_yourself; WHERE its attributes live is the client's business:
+    instance dict, class-level defaults, properties over private storage, or a proxy that delegates attribute access"""
+    if kind == "class":
+        return type("PeerWithClassDefaults", (object,), dict(attrs))()
+    if kind == "property":
+        store = dict(attrs)
+
+        def mk(name):
+            return property(lambda self: store[name], lambda self, v: store.__setitem__(name, v))
+        return type("PeerWithProperties", (object,), {k: mk(k) for k in attrs})()
+    if kind == "proxy":
+        inner = _Other()
+        for k, v in attrs.items():
+            setattr(inner, k, v)
+
+        class PeerProxy(object):
+            def __getattr__(self, name):
+                return getattr(inner, name)
+
+            def __setattr__(self, name, value):
+                setattr(inner, name, value)
+        return PeerProxy()
+    o = _Other()
+    for k, v in attrs.items():
+        setattr(o, k, v)
+    return o
 
 
 class _Model(object):
@@ -1163,17 +1223,17 @@ def execute(trace):
                             m.p[n] = [v, False]
                     elif kind in ("update_other", "update_yourself"):
                         attrs = {k: dec(v) for k, v in op[2].items()}
-                        other = _Other()
-                        for k, v in attrs.items():
-                            setattr(other, k, v)
+                        peer_kind = op[3] if len(op) > 3 else "instance"
+                        other = make_peer(peer_kind, attrs)
+                        count("peer." + peer_kind)
                         if kind == "update_other":
                             o.update_other(other)
                             exp = dict(attrs)
                             for k in m.p:
                                 if k in exp:
                                     exp[k] = o.get_parameters().get(k, m.p[k][0])
-                            got = dict(other.__dict__)
-                            if sorted(got) != sorted(exp) or not all(same(got[k], exp[k]) for k in exp):
+                            got = {k: getattr(other, k) for k in exp}
+                            if not all(same(got[k], exp[k]) for k in exp):
                                 raise _Violation("update_other did not synchronise the other object", site,
                                                  "other has %s expected %s" % (sorted((k, show(v)) for k, v in got.items()),
                                                                               sorted((k, show(v)) for k, v in exp.items())))
@@ -1182,8 +1242,7 @@ def execute(trace):
                             for k in m.p:
                                 if k in attrs:
                                     m.p[k] = [attrs[k], False]
-                            if dict(other.__dict__).keys() != attrs.keys() or not all(
-                                    same(other.__dict__[k], attrs[k]) for k in attrs):
+                            if not all(same(getattr(other, k), attrs[k]) for k in attrs):
                                 raise _Violation("update_yourself modified the other object", site, "")
                     elif kind == "save":
                         path, plan = op[2], op[3]
